@@ -38,7 +38,7 @@ BLE_OPCODES = [1, 2, 3, 4, 5, 6, 7, 8]
 BLE_TIDS = [1, 2, 127, 128, 253]
 BLE_IIDS = [0, 1, 255, 256, 0x1234, 65535]
 REAL_SIZES = [20, 155, 244, 496, 512]
-COAP_IIDS = [700, 3, 65535, 12, 256, 9]
+COAP_IIDS = [700, 3, 65535, 12, 256, 9] + [1000 + 7 * i for i in range(300)]  # the first six as before; the rest for long batches
 LENS = {"A": [1, 2, 8, 3, 1, 5], "B": [300, 1, 255, 2, 256, 4]}
 SYM6 = ["ok:0", "ok:n", "err:r", "tid:n", "ctl:n", "errctl:r"]
 SYM14 = ["ok:0", "ok:n", "err:1", "err:2", "err:3", "err:4", "err:5", "err:6", "errb:r", "tid:n", "tid:0", "ctl:n", "ctl:0", "errctl:r"]
@@ -105,8 +105,15 @@ class _Gatt:
         self.problems.append((sig, detail))
         raise _Breach(sig)
 
+    latency = None  # None: a write is delivered at once; 'size': it completes after a time growing with its size; 'inverse': shrinking with it
+
     async def write_gatt_char(self, handle, data, response):
         data = bytes(data)
+        if self.latency:
+            import asyncio
+
+            # the radio takes its time, and not the same time for every write: the accessory sees the bytes when the write completes
+            await asyncio.sleep((len(data) if self.latency == "size" else 1000 - len(data)) / 1000.0)
         self.writes.append(len(data))
         if self.request is not None:
             self._breach("ble:write-after-request-complete", index=len(self.writes) - 1)
@@ -134,7 +141,12 @@ class _Gatt:
         return bytearray(self.session.seal(frag) if self.session else frag)
 
 
-def _ble_call(f, enc, opcode, tid, iid, data, responder, seed=0):
+class _HandleWNR(_Handle):
+    properties = ["read", "write", "write-without-response"]
+    max_write_without_response_size = 512
+
+
+def _ble_call(f, enc, opcode, tid, iid, data, responder, seed=0, gattenv=None):
     """Run one real ble_request against the reference accessory.  -> (result or None, exception or None, gatt, rand)."""
     from aiohomekit import pdu as libpdu
     from aiohomekit.controller.ble import client as libclient
@@ -149,6 +161,17 @@ def _ble_call(f, enc, opcode, tid, iid, data, responder, seed=0):
     saved = libclient.random
     libclient.random = rand
     try:
+        if gattenv:
+            from vt import vloop
+
+            gatt.latency = gattenv.get("latency")
+            handle = _HandleWNR() if gattenv.get("wnr") else _Handle()
+            loop = vloop.VirtualLoop().install()
+            try:
+                res = loop.run_coro(libclient.ble_request(gatt, ek, dk, libpdu.OpCode(opcode), handle, iid, data), 600.0)
+            finally:
+                loop.shutdown()
+            return res, None, gatt, rand
         res = _drive(libclient.ble_request(gatt, ek, dk, libpdu.OpCode(opcode), _Handle(), iid, data))
         return res, None, gatt, rand
     except core.HarnessError:
@@ -195,7 +218,7 @@ def case_ble_request(p):
         echo = bytes(b ^ 0x5A for b in req.body)
         return blepdu.response_fragments(req.tid, 0, echo, blepdu.uniform_parts(len(echo), f))
 
-    res, exc, gatt, rand = _ble_call(f, enc, opcode, tid, iid, data, responder, seed)
+    res, exc, gatt, rand = _ble_call(f, enc, opcode, tid, iid, data, responder, seed, gattenv=p.get("gatt"))
     out = list(gatt.problems)
     out = [(s, {**p, **d}) for s, d in out]
     if exc is not None and not gatt.problems:
@@ -301,7 +324,7 @@ def _resp_item(sym, i, tid, val, wt, wc):
 
 
 def _vals(n, lens, seed):
-    return [_fill(LENS[lens][i], seed + 20 + i) for i in range(n)]
+    return [_fill(LENS[lens][i % len(LENS[lens])], seed + 20 + i) for i in range(n)]
 
 
 def case_coap_decode(p):
@@ -617,6 +640,13 @@ def run(ctx):
                 req.append({"f": f, "enc": enc, "L": L, "opcode": _rot(BLE_OPCODES, k), "tid": _rot(BLE_TIDS, k // 3), "iid": _rot(BLE_IIDS, k // 5), "seed": seed})
     for op, tid, iid, (f, L), enc in itertools.product(BLE_OPCODES, BLE_TIDS, BLE_IIDS, [(8, 0), (8, 3), (20, 40), (64, 200)], (0, 1)):
         req.append({"f": f, "enc": enc, "L": L, "opcode": op, "tid": tid, "iid": iid, "seed": seed, "none": L == 0 and tid % 2 == 1})
+    # the GATT link as an environment: writes that take time (growing / shrinking with their size), characteristics that allow write-without-response
+    for f, L in [(20, 0), (20, 13), (20, 14), (20, 40), (20, 200), (64, 57), (64, 58), (64, 300), (185, 1000)] + ([] if quick else [(f_, L_) for f_ in (8, 23, 128) for L_ in (1, f_ - 7, f_ - 6, 3 * f_, 10 * f_)]):
+        for enc in (0, 1):
+            for lat in ("size", "inverse"):
+                for wnr in (False, True):
+                    k = f + L + enc
+                    req.append({"f": f, "enc": enc, "L": L, "opcode": _rot(BLE_OPCODES, k), "tid": _rot(BLE_TIDS, k // 3), "iid": _rot(BLE_IIDS, k // 5), "seed": seed, "gatt": {"latency": lat, "wnr": wnr}})
     req.sort(key=lambda p: -(p["L"] // max(1, p["f"] - 2)))  # long ones first for load balance
     work += _chunks("ble_request", req, 250)
     ctx.bounds["ble_request"] = dict(
@@ -706,6 +736,14 @@ def run(ctx):
                 for op in OPS:
                     for u in range(len(vec)):
                         bat.append(dict(base, op=op, unknown=u))
+    # long batches (a bridge with many characteristics in one call): transaction ids run 0..n-1, the i-th outcome is the i-th id's
+    for n in ([15, 16, 17, 18, 32, 33, 40, 64] if not quick else [16, 17, 33]):
+        for bad_at in sorted({None, 0, 15, 16, 17, n - 1} - {x for x in (15, 16, 17) if x >= n}, key=lambda x: -1 if x is None else x):
+            vec = ["ok:n"] * n
+            if bad_at is not None:
+                vec[bad_at] = "err:4"
+            for op in OPS:
+                bat.append({"vec": vec, "lens": "A", "wt": "next", "wc": 0, "seed": seed, "op": op})
     work += _chunks("coap_decode", dec, 1500)
     work += _chunks("coap_batch", bat, 500)
     ctx.bounds["coap"] = dict(
